@@ -328,12 +328,17 @@ def part_compares(ctx, r, F):
     ctx.instance(r)
     bits = lambda p: call("hash::qratios::InnerQRatios::into_bits", ("load", ("field", ("deref", P(p)), 0)))
     want = [call("compare::dist_qratios::distance", bits(1), bits(2)), call("compare::dist_qratios::distance", bits(2), bits(1))]
+    # the raw byte through the accessor value() (R-06.2 decides that value() is the raw byte) / the length accessor likewise below
+    val = lambda p: call("hash::qratios::FuzzyHashQRatios::value", P(p))
+    want += [call("compare::dist_qratios::distance", val(1), val(2)), call("compare::dist_qratios::distance", val(2), val(1))]
     ctx.ob(r, ("FuzzyHashQRatios::compare", "forwards"), got in want,
            "FuzzyHashQRatios::compare is %s" % (sym.fmt(got) if got else got), cfg=F.key, where=b.where() if b else None)
     b, got = single_ret(F, "length::FuzzyHashLengthEncoding::compare")
     ctx.instance(r)
     lv = lambda p: ("load", ("field", ("deref", P(p)), 0))
     want = [call("compare::dist_length::distance", lv(1), lv(2)), call("compare::dist_length::distance", lv(2), lv(1))]
+    lval = lambda p: call("length::FuzzyHashLengthEncoding::value", P(p))
+    want += [call("compare::dist_length::distance", lval(1), lval(2)), call("compare::dist_length::distance", lval(2), lval(1))]
     ctx.ob(r, ("FuzzyHashLengthEncoding::compare", "forwards"), got in want,
            "FuzzyHashLengthEncoding::compare is %s" % (sym.fmt(got) if got else got), cfg=F.key, where=b.where() if b else None)
     # body: size -> distance_N
